@@ -11,7 +11,7 @@ for pid in ids:
     if not os.path.exists(p):
         continue
     d = json.load(open(p))
-    if d.get("disabled") or not d.get("ready"):
+    if d.get("disabled") or not d.get("ready") or "level_text" not in d or "level_note" not in d:
         continue   # "ready": true is set by the coordinator once the check is integrated and green
     claimed.add(pid)
     checks.append({
